@@ -379,57 +379,207 @@ func (c *Ctx) RuleNoPanicSites(fns map[*ssa.Function]bool, exceptions map[string
 
 // ---------- C12.whole ----------
 
-// RuleWholeInput: in fn (size.unmarshalJSON) every success return must be preceded by an end-of-input check.
-func (c *Ctx) RuleWholeInput(fn *ssa.Function) {
-	// collect blocks containing a recognised end-of-input check
-	eof := map[*ssa.BasicBlock]bool{}
-	for f := range c.Reachable(fn) {
-		for _, b := range f.Blocks {
-			for _, in := range b.Instrs {
-				if bo, ok := in.(*ssa.BinOp); ok && (bo.Op == token.EQL || bo.Op == token.NEQ) {
-					for _, v := range []ssa.Value{bo.X, bo.Y} {
-						if g := globalLoad(v); g != nil && g.Pkg.Pkg.Path() == "io" && g.Name() == "EOF" {
-							eof[b] = true
-						}
-					}
+// RuleWholeInput (C12.whole): on the JSON path below entry (the chain of in-repo calls from entry down to the
+// function that constructs the json.Decoder) some function must, on every success-capable return that follows the
+// decoding, have passed an end-of-input check of an enumerated form:
+//
+//	json.Valid(<whole input>) tested, valid edge dominating the return;
+//	a decoder Token() whose error is compared with io.EOF, the equal edge dominating the return;
+//	Decoder.InputOffset() compared with len(<input>), the equal edge dominating the return.
+func (c *Ctx) RuleWholeInput(entry *ssa.Function, inputIdx int) {
+	reach := c.Reachable(entry)
+	var dec *ssa.Function
+	for _, f := range SortedFuncs(reach) {
+		if len(c.Calls(f, func(g *ssa.Function) bool { return g.String() == "encoding/json.NewDecoder" })) > 0 {
+			if dec != nil {
+				c.addc("undecided", "C12.whole", entry, entry.Pos(), "decoder", "more than one function constructs a json.Decoder below "+FnName(entry), "")
+				return
+			}
+			dec = f
+		}
+	}
+	if dec == nil {
+		c.addc("undecided", "C12.whole", entry, entry.Pos(), "decoder", "no json.NewDecoder below "+FnName(entry)+" (idioms: token-wise decoding with an end-of-input check)", "")
+		return
+	}
+	// chain entry -> ... -> dec with the parameter index carrying the input
+	type link struct {
+		fn   *ssa.Function
+		in   int
+		call *ssa.Call // call into the next link (nil for dec)
+	}
+	var chain []link
+	var find func(fn *ssa.Function, in int, depth int) bool
+	find = func(fn *ssa.Function, in int, depth int) bool {
+		if depth > 5 {
+			return false
+		}
+		if fn == dec {
+			chain = append(chain, link{fn, in, nil})
+			return true
+		}
+		for _, b := range fn.Blocks {
+			for _, ins := range b.Instrs {
+				call, ok := ins.(*ssa.Call)
+				if !ok {
+					continue
 				}
-				if call, ok := in.(*ssa.Call); ok {
-					if f2 := call.Call.StaticCallee(); f2 != nil {
-						switch origin(f2).String() {
-						case "encoding/json.Valid", "(*encoding/json.Decoder).InputOffset", "errors.Is":
-							eof[b] = true
+				callee := c.StaticCallee(&call.Call)
+				if callee == nil || !inRepo(callee) || !c.Reachable(callee)[dec] {
+					continue
+				}
+				for ai, a := range call.Call.Args {
+					if rootParam(a) == fn.Params[in] && ai < len(callee.Params) {
+						chain = append(chain, link{fn, in, call})
+						if find(callee, ai, depth+1) {
+							return true
 						}
+						chain = chain[:len(chain)-1]
 					}
 				}
 			}
 		}
+		return false
 	}
-	n := 0
+	if !find(entry, inputIdx, 0) {
+		c.addc("undecided", "C12.whole", entry, entry.Pos(), "chain", "the input is not passed down to the decoder-constructing function through plain in-repo calls", "")
+		return
+	}
+	var unchecked []string
+	for i := len(chain) - 1; i >= 0; i-- {
+		l := chain[i]
+		okBlocks := c.eofCheckedBlocks(l.fn, l.fn.Params[l.in])
+		n, bad := 0, 0
+		var badPos token.Pos
+		for _, b := range l.fn.Blocks {
+			ret, ok := b.Instrs[len(b.Instrs)-1].(*ssa.Return)
+			if !ok {
+				continue
+			}
+			if isErrorReturnBlock(b) {
+				continue
+			}
+			if l.call != nil {
+				cb := l.call.Block()
+				if !(cb == b || reachFrom(cb)[b]) {
+					continue // return not on the JSON path
+				}
+			}
+			n++
+			if !c.domAny(okBlocks, b) {
+				bad++
+				if badPos == token.NoPos {
+					badPos = ret.Pos()
+				}
+			}
+		}
+		if n > 0 && bad == 0 {
+			c.addc("discharged", "C12.whole", l.fn, l.fn.Pos(), "success returns", fmt.Sprintf("all %d success-capable return(s) on the JSON path are dominated by an end-of-input check", n), "")
+			return
+		}
+		unchecked = append(unchecked, fmt.Sprintf("%s (%d of %d)", FnName(l.fn), bad, n))
+		if i == len(chain)-1 {
+			_ = badPos
+		}
+	}
+	c.addc("violated", "C12.whole", dec, dec.Pos(), "success returns",
+		"no function on the JSON path "+strings.Join(unchecked, " <- ")+" checks for end of input before its success returns: trailing bytes after the value and an object without its closing delimiter are accepted",
+		"1 x  |  {\"value\":1,\"unit\":\"B\"")
+}
+
+// eofCheckedBlocks returns the blocks entered only after a successful end-of-input check in fn.
+func (c *Ctx) eofCheckedBlocks(fn *ssa.Function, input *ssa.Parameter) []*ssa.BasicBlock {
+	var out []*ssa.BasicBlock
 	for _, b := range fn.Blocks {
-		ret, ok := b.Instrs[len(b.Instrs)-1].(*ssa.Return)
+		iff, ok := b.Instrs[len(b.Instrs)-1].(*ssa.If)
 		if !ok {
 			continue
 		}
-		errv := ret.Results[len(ret.Results)-1]
-		if !isNilConst(errv) && !c.mayBeNil(errv) {
-			continue
+		cond := iff.Cond
+		tEdge, fEdge := b.Succs[0], b.Succs[1]
+		for {
+			if u, ok := cond.(*ssa.UnOp); ok && u.Op == token.NOT {
+				cond = u.X
+				tEdge, fEdge = fEdge, tEdge
+				continue
+			}
+			break
 		}
-		n++
-		okc := false
-		for e := range eof {
-			if e.Parent() == fn && (e == b || e.Dominates(b)) {
-				okc = true
+		switch x := cond.(type) {
+		case *ssa.Call:
+			if f := x.Call.StaticCallee(); f != nil && f.String() == "encoding/json.Valid" {
+				arg := x.Call.Args[0]
+				if rootParam(arg) == input && !hasSliceOnPath(arg) && leadsOnlyToErrors(fEdge) {
+					out = append(out, tEdge)
+				}
+			}
+		case *ssa.BinOp:
+			if x.Op != token.EQL && x.Op != token.NEQ {
+				continue
+			}
+			eq, ne := tEdge, fEdge
+			if x.Op == token.NEQ {
+				eq, ne = ne, eq
+			}
+			isEOF := func(v ssa.Value) bool {
+				g := globalLoad(v)
+				return g != nil && g.Pkg.Pkg.Path() == "io" && g.Name() == "EOF"
+			}
+			isTokenErr := func(v ssa.Value) bool {
+				ex, ok := v.(*ssa.Extract)
+				if !ok || ex.Index != 1 {
+					return false
+				}
+				call, ok := ex.Tuple.(*ssa.Call)
+				if !ok {
+					return false
+				}
+				if call.Call.IsInvoke() {
+					return call.Call.Method.Name() == "Token"
+				}
+				f := call.Call.StaticCallee()
+				return f != nil && f.String() == "(*encoding/json.Decoder).Token"
+			}
+			isOffset := func(v ssa.Value) bool {
+				call, ok := stripConv(v).(*ssa.Call)
+				if !ok {
+					return false
+				}
+				f := call.Call.StaticCallee()
+				return f != nil && f.String() == "(*encoding/json.Decoder).InputOffset"
+			}
+			isLenInput := func(v ssa.Value) bool {
+				a, ok := isLenOf(v)
+				return ok && rootParam(a) == input && !hasSliceOnPath(a)
+			}
+			if (isEOF(x.X) && isTokenErr(x.Y) || isEOF(x.Y) && isTokenErr(x.X)) && leadsOnlyToErrors(ne) {
+				out = append(out, eq)
+			}
+			if (isOffset(x.X) && isLenInput(x.Y) || isOffset(x.Y) && isLenInput(x.X)) && leadsOnlyToErrors(ne) {
+				out = append(out, eq)
 			}
 		}
-		if okc {
-			c.add("discharged", "C12.whole", fn, ret.Pos(), "success return after end-of-input check")
-		} else {
-			c.add("violated", "C12.whole", fn, ret.Pos(), "success return not preceded by any end-of-input check (trailing bytes / truncated object accepted)")
+	}
+	return out
+}
+
+// hasSliceOnPath reports whether v is derived from its root through a re-slice (i.e. is not the whole value).
+func hasSliceOnPath(v ssa.Value) bool {
+	for i := 0; i < 10; i++ {
+		switch x := v.(type) {
+		case *ssa.Slice:
+			return true
+		case *ssa.MultiConvert:
+			v = x.X
+		case *ssa.Convert:
+			v = x.X
+		case *ssa.ChangeType:
+			v = x.X
+		default:
+			return false
 		}
 	}
-	if n == 0 {
-		c.add("undecided", "C12.whole", fn, fn.Pos(), "no success return found")
-	}
+	return false
 }
 
 // mayBeNil: error value coming from a callee (could be nil) — e.g. `return unmarshalText(...)`.
